@@ -206,22 +206,24 @@ func (v *VC) axiomTerm(ax Axiom) (string, bool) {
 	}
 	calls := map[string]bool{}
 	collectCalls(e, calls)
-	any := false
 	for c := range calls {
 		if _, isUF := v.P.db.UFs[c]; isUF {
-			any = true
 			if _, used := v.ufs[c]; !used {
 				return "", false
 			}
 		}
 	}
-	if !any {
-		return "", false
-	}
+	nUF, nErr := len(v.ufOrder), len(v.specErrors)
 	env := &SpecEnv{vars: map[string]TV{}, addr: nil, heap: &Heap{m: map[string]string{}, epoch: 0}, bound: map[string]TV{}, before: map[string]TV{}, fn: v.fn}
 	t, err := v.evalClause(Clause{Src: ax.Src, File: ax.File, Line: ax.Line}, env)
-	if err != nil {
-		v.specErrors = append(v.specErrors, err.Error())
+	if err != nil || len(v.ufOrder) != nUF {
+		// the axiom talks about functions this verification condition does not use (or about
+		// types that are not in scope here): it is irrelevant, drop what its evaluation declared
+		for _, n := range v.ufOrder[nUF:] {
+			delete(v.ufs, n)
+		}
+		v.ufOrder = v.ufOrder[:nUF]
+		v.specErrors = v.specErrors[:nErr]
 		return "", false
 	}
 	v.usedAxioms = append(v.usedAxioms, fmt.Sprintf("%s (%s:%d)", ax.Label, shortFile(ax.File), ax.Line))
